@@ -38,6 +38,7 @@ def run(repo, chk):
     rule_stream(repo, chk)
     rule_filegen(repo, chk)
     rule_once(repo, chk)
+    rule_shared(repo, chk)
 
 
 def rule_prepare(repo, chk):
@@ -403,3 +404,10 @@ def _branch(g, n):
     """Short label of the innermost enclosing test of a node (for stable keys)."""
     tests = [a for k, a in n.ctx if k in ('if', 'elif', 'test')]
     return re.sub(r'[^A-Za-z0-9_.]+', '_', src(n.ast))[:60]
+
+
+def rule_shared(repo, chk):
+    chk.rule('C15.g', 'error responses always announce and perform a close (the front end leaves the parser of a redirected / rejected message in place and '
+                      'relies on the connection ending): obligations decided for C14.g and C14.b')
+    n = chk.adopt('g', 'C14', repo, lambda o: (o.rule == 'C14.g' and o.discr.startswith('error-response:')) or (o.rule == 'C14.b' and o.discr.startswith('parser-dropped')))
+    need(n >= 3, f'C15.g: only {n} shared obligations found')
